@@ -4,10 +4,8 @@
     the real [re.findall] counted for every pattern on every stream's whole text. *)
 From InvokeVerif Require Export Model.WatchModel Spec.C12Spec.
 
-(** Which variant of the model describes /repo.  [current] = the unchanged code
-    (F-C12a, F-C12b present).  Should the two repairs be applied to /repo, change
-    this one line to [repaired]: [corr] then follows the repaired code and the
-    full-strength theorems [C12_repaired_*] are the ones that apply. *)
+(** The variant of the model that describes /repo: the code after the fixes
+    28f435d / 380f659 (F-C12a, F-C12b repaired). *)
 Definition impl_variant : variant := current.
 
 Record case := mk {
@@ -38,8 +36,9 @@ Definition re_ok (c : case) : bool :=
 
 Definition corr (c : case) : bool := corr_with impl_variant c && re_ok c.
 
-(** would the repaired model describe the implementation (informative only) *)
-Definition corr_repaired (c : case) : bool := corr_with repaired c.
+(** would the pre-fix model describe the implementation (informative only: true on a
+    case outside the guard means the old defect is back) *)
+Definition corr_before_fix (c : case) : bool := corr_with before_fix c.
 
 Definition spec (c : case) : bool :=
   spec_ok (all_ws c) (c_sched c) (c_how c) (c_writes c) (c_raised c) (c_exc c).
